@@ -7,8 +7,10 @@
 (*   utype/parser/field.py  ParserField.resolve_forward_refs                *)
 (*   utype/utils/transform.py  "ForwardRef ... not evaluated" at conversion *)
 (*                                                                         *)
-(* A program is data: entities (data classes A, B and a constrained int     *)
-(* type N) in definition order, reference fields [c, att, target, spell,    *)
+(* A program is data: entities (data classes A, B, a subclass S of A, a     *)
+(* constrained int type N, a decorated function F -- module level or nested *)
+(* in another function -- with a parameter p / *p and a return type r) in   *)
+(* definition order, reference fields [c, att, target, spell,    *)
 (* cons], scope, postponed annotations, and the order of first use.         *)
 (* M-layer: registration keys, reference-object identity (typing caches     *)
 (* generic aliases, so List['B'] is one object wherever it is written),     *)
@@ -20,10 +22,15 @@
 EXTENDS Naturals, Sequences, FiniteSets, TLC
 
 CONSTANT Variant          \* "orig": registration key as at the pinned commit; "fixed": after the fix: commit
+CONSTANT Inherit          \* TRUE: a subclass takes over the pending references of the fields it inherits (commit dbd41ab)
+CONSTANT FixReturn        \* TRUE: a function's return / *args types are rebuilt before local references are cleared (commit 4816f76)
+CONSTANT FixOrigin        \* TRUE: references inside Optional / Union are replaced when resolved (commit 29dafc9)
 
 Range(s) == {s[x] : x \in 1..Len(s)}
 Generic(sp) == sp \in {"list", "dict", "opt", "union"}
 Classes(p) == {e \in Range(p.ents) : e # "N"}
+\* "S" is a subclass of A that declares no reference of its own: its fields are A's field objects
+Owner(c) == IF c = "S" THEN "A" ELSE c
 FieldsOf(p, c) == {x \in 1..Len(p.fields) : p.fields[x].c = c}
 PosOf(p, e) == CHOOSE x \in 1..Len(p.ents) : p.ents[x] = e
 
@@ -32,6 +39,8 @@ Legal(p) == \A x \in 1..Len(p.fields) : LET f == p.fields[x] IN
               /\ (f.spell = "direct" /\ ~p.future => PosOf(p, f.target) < PosOf(p, f.c))
               /\ (f.cons => f.target = "N" /\ f.spell \in {"direct", "str"})
               /\ (p.scope = "local" => f.target = f.c /\ f.spell # "direct")
+              /\ (f.c = "F" => f.target = "B" /\ ~f.cons)
+              /\ ("S" \in Range(p.ents) => PosOf(p, "A") < PosOf(p, "S"))
 
 (* ---- M: identity of the reference object and its registration key ------ *)
 \* postponed evaluation turns every annotation into one top-level string
@@ -45,12 +54,20 @@ RegKey(p, x) == LET f == p.fields[x] IN
   ELSE IF Variant = "orig" THEN <<"name", f.target>>            \* forward_refs.setdefault(__forward_arg__, ...): first wins
   ELSE <<"obj", f.spell, f.target>>                             \* fixed: one entry per distinct reference object
 
-VARIABLES prog, pc, defined, pending, evald, applied, called, outcome
-vars == <<prog, pc, defined, pending, evald, applied, called, outcome>>
+VARIABLES prog, pc, defined, pending, spending, evald, applied, called, outcome
+vars == <<prog, pc, defined, pending, spending, evald, applied, called, outcome>>
+\* spending: the pending references S took over from A when it was created
 \* pending : class -> set of field indexes whose reference object is the registered one for its key
 \* evald   : set of reference objects evaluated so far ;  applied : field indexes whose type has been rebuilt with
 \* the Field constraints ; called : classes whose parser ran resolve_forward_refs ; outcome : last use's prediction
 
+\* the object that owns the field is local to a function: its evaluated references are cleared again (force_clear)
+OwnerLocal(p, c) == IF c = "F" THEN p.fscope = "local" ELSE p.scope = "local"
+\* a reference resolved at the first call whose holder is not rebuilt before the local references are cleared
+Lost(p, x) == LET f == p.fields[x] IN
+  /\ OwnerLocal(p, f.c)
+  /\ \/ ~FixReturn /\ f.c = "F" /\ (f.att = "r" \/ p.varargs)
+     \/ ~FixOrigin /\ ~TopLevel(p, f) /\ f.spell \in {"opt", "union"}
 Resolvable(p, f, defd) == f.target \in defd \/ f.target = f.c   \* ClassParser.globals injects the class's own name
 \* class creation: generate_fields -> parse_annotation -> register_forward_ref for every forward field in order
 RECURSIVE Create(_, _, _, _, _)
@@ -60,7 +77,7 @@ Create(p, c, idxs, st, defd) ==
            f == p.fields[x]
            s1 == IF ~IsForward(p, f) THEN [st EXCEPT !.applied = @ \cup {x}]
                  ELSE IF Resolvable(p, f, defd)
-                   THEN [st EXCEPT !.evald = IF p.scope = "local" THEN @ ELSE @ \cup {RefObj(p, x)},   \* force_clear
+                   THEN [st EXCEPT !.evald = IF OwnerLocal(p, c) THEN @ ELSE @ \cup {RefObj(p, x)},   \* force_clear
                                    !.applied = @ \cup {x}]
                  ELSE IF \E y \in st.pend : p.fields[y].c = c /\ RegKey(p, y) = RegKey(p, x) THEN st                          \* setdefault: lost
                  ELSE [st EXCEPT !.pend = @ \cup {x}]
@@ -69,36 +86,41 @@ Create(p, c, idxs, st, defd) ==
 \* first call: BaseParser.resolve_forward_refs evaluates every registered reference whose target exists now,
 \* then every field re-reads its type (the registered object of a top-level reference carries the constraints)
 FirstCall(p, c, st, defd) ==
-  LET mine == {x \in st.pend : p.fields[x].c = c}
+  LET mine == IF c = "S" THEN st.spend ELSE {x \in st.pend : p.fields[x].c = c}
       done == {x \in mine : Resolvable(p, p.fields[x], defd)} IN
-  [st EXCEPT !.pend = @ \ done,
-             !.evald = @ \cup {RefObj(p, x) : x \in done},
-             !.applied = @ \cup done]
+  [st EXCEPT !.pend = IF c = "S" THEN @ ELSE @ \ done,       \* A's own registration stays until A's first call
+             !.spend = IF c = "S" THEN @ \ done ELSE @,
+             !.evald = @ \cup {RefObj(p, x) : x \in {y \in done : ~OwnerLocal(p, p.fields[y].c)}},
+             \* every field of the class re-reads its type: all those that hold one of the objects evaluated now are rebuilt
+             !.applied = @ \cup {x \in FieldsOf(p, Owner(c)) : /\ IsForward(p, p.fields[x]) /\ ~Lost(p, x)
+                                                                 /\ RefObj(p, x) \in {RefObj(p, y) : y \in done}}]
 
 \* which parsers run for an input nested two levels below class c
-Targets(p, cs) == {p.fields[x].target : x \in {y \in 1..Len(p.fields) : p.fields[y].c \in cs}} \ {"N"}
+Targets(p, cs) == {p.fields[x].target : x \in {y \in 1..Len(p.fields) : p.fields[y].c \in {Owner(c) : c \in cs}}} \ {"N"}
 Closure(p, c) == {c} \cup Targets(p, {c}) \cup Targets(p, Targets(p, {c}))
 RECURSIVE FirstCalls(_, _, _, _)
 FirstCalls(p, cs, st, defd) == IF cs = {} THEN st
                                ELSE LET c == CHOOSE d \in cs : TRUE IN FirstCalls(p, cs \ {c}, FirstCall(p, c, st, defd), defd)
 \* a field converts iff its type is usable: not forward, or its reference object has been evaluated
 Usable(p, x, st) == ~IsForward(p, p.fields[x]) \/ RefObj(p, x) \in st.evald \/ x \in st.applied
-MOk(p, c, st) == \A x \in 1..Len(p.fields) : p.fields[x].c \in Closure(p, c) => Usable(p, x, st)
-MCons(p, c, st) == \A x \in 1..Len(p.fields) : (p.fields[x].c \in {c} \cup Targets(p, {c}) /\ p.fields[x].cons) => x \in st.applied
+MOk(p, c, st) == \A x \in 1..Len(p.fields) : p.fields[x].c \in {Owner(d) : d \in Closure(p, c)} => Usable(p, x, st)
+MCons(p, c, st) == \A x \in 1..Len(p.fields) : (p.fields[x].c \in {Owner(c)} \cup Targets(p, {c}) /\ p.fields[x].cons) => x \in st.applied
 
-St == [pend |-> pending, evald |-> evald, applied |-> applied]
-Init == /\ pc = 1 /\ defined = {} /\ pending = {} /\ evald = {} /\ applied = {} /\ called = {}
+St == [pend |-> pending, spend |-> spending, evald |-> evald, applied |-> applied]
+Init == /\ pc = 1 /\ defined = {} /\ pending = {} /\ spending = {} /\ evald = {} /\ applied = {} /\ called = {}
         /\ outcome = [use |-> "none", ok |-> TRUE, cons |-> TRUE]
 Define == /\ pc <= Len(prog.ents)
           /\ LET e == prog.ents[pc]
-                 s == IF e = "N" THEN St ELSE Create(prog, e, FieldsOf(prog, e), St, defined) IN
-             /\ pending' = s.pend /\ evald' = s.evald /\ applied' = s.applied
+                 s == IF e = "N" THEN St
+                      ELSE IF e = "S" THEN [St EXCEPT !.spend = IF Inherit THEN {x \in pending : prog.fields[x].c = "A"} ELSE {}]
+                      ELSE Create(prog, e, FieldsOf(prog, e), St, defined) IN
+             /\ pending' = s.pend /\ spending' = s.spend /\ evald' = s.evald /\ applied' = s.applied
              /\ defined' = defined \cup {e}
           /\ pc' = pc + 1 /\ UNCHANGED <<prog, called, outcome>>
 Use == /\ pc > Len(prog.ents) /\ pc <= Len(prog.ents) + Len(prog.uses)
        /\ LET c == prog.uses[pc - Len(prog.ents)]
               s == FirstCalls(prog, Closure(prog, c), St, defined) IN
-          /\ pending' = s.pend /\ evald' = s.evald /\ applied' = s.applied
+          /\ pending' = s.pend /\ spending' = s.spend /\ evald' = s.evald /\ applied' = s.applied
           /\ called' = called \cup Closure(prog, c)
           /\ outcome' = [use |-> c, ok |-> MOk(prog, c, s), cons |-> MCons(prog, c, s)]
        /\ pc' = pc + 1 /\ UNCHANGED <<prog, defined>>
